@@ -36,7 +36,8 @@ structure Sig where
 /-- Panic / error classes (the probe maps the real messages to the same names). -/
 inductive Err where
   | nosuitable   -- when.go:239 / mocker.go:152 "there is no suitable condition matched"
-  | arglen       -- when.go:78 checkParams (erro.ArgsNotMatch, also used for the results count)
+  | arglen       -- when.go:78 checkParams (erro.ArgsNotMatch)
+  | retlen       -- when.go:80 checkParams (erro.ReturnsNotMatch "returns lenth not match")
   | whenerr      -- matcher.go:104 "Call When(...) error"
   | inerr        -- matcher.go:167 "create param match fail"
   | reterr       -- matcher.go:29,57 "Return Value (...) error"
@@ -226,18 +227,19 @@ def W.get (w : W) (id : Nat) : Except Err Matcher :=
   | some m => .ok m
   | none => .error .unmodelled
 
-/-- `newAlwaysMatch(results, funTyp)` (matcher.go:194) with `newBaseMatcher` (:21): nil results give a typed nil. -/
-def newAlwaysMatch (sig : Sig) (cnt : Nat) (r : Res) : Except Err Matcher :=
-  if cnt = 0 then .ok { kind := .nilAlways, results := [], cur := 0 }
+/-- `newAlwaysMatch(results, funTyp)` (matcher.go:194) with `newBaseMatcher` (:21): a nil slice gives a typed nil;
+    a non-nil list (possibly empty) goes through `arg.I2V`, which demands exactly `NumOut` values. -/
+def newAlwaysMatch (sig : Sig) (isNil : Bool) (cnt : Nat) (r : Res) : Except Err Matcher :=
+  if isNil then .ok { kind := .nilAlways, results := [], cur := 0 }
   else if cnt != sig.numOut then .error .reterr
   else .ok { kind := .always, results := [r], cur := 0 }
 
 /-- `CreateWhen` (when.go:41) with `checkParams` (:78).  `args = none` is a nil slice (`When()` without arguments,
-    or a mocker-level `Return`); `defaults = (cnt, r)` with `cnt = 0` is the nil slice of `Return()`. -/
+    or a mocker-level `Return`); `defaults = none` is a nil slice, `some (cnt, r)` a non-nil list of `cnt` values
+    (the mockers' `Return` turns "no values" into the empty list, mocker.go:301,560, so the count test applies). -/
 def createWhen (sig : Sig) (args : Option (List Spec)) (defaults : Option (Nat Ã— Res)) : Except Err W := do
-  let defaults := match defaults with | some (0, _) => none | d => d
   match defaults with
-  | some (cnt, _) => if cnt < sig.numOut then throw Err.arglen
+  | some (cnt, _) => if cnt < sig.numOut then throw Err.retlen
   | none => pure ()
   match args with
   | some a => if a.length < sig.nIn then throw Err.arglen
@@ -245,7 +247,7 @@ def createWhen (sig : Sig) (args : Option (List Spec)) (defaults : Option (Nat Ã
   let w0 : W := { sig := sig, store := fun _ => none, next := 0, ms := [], dflt := none, cur := none }
   let w1 â† match defaults with
     | some (cnt, r) => do
-      let m â† newAlwaysMatch sig cnt r
+      let m â† newAlwaysMatch sig false cnt r
       let (w, id) := w0.alloc m
       pure { w with dflt := some id, cur := some id }
     | none =>
@@ -282,7 +284,7 @@ def W.ret (w : W) (cnt : Nat) (r : Res) : Except Err W :=
   | none =>
     match w.dflt with
     | none => do
-      let m â† newAlwaysMatch w.sig cnt r
+      let m â† newAlwaysMatch w.sig (cnt == 0) cnt r   -- `w.Return()` without values: a nil slice
       let (w, id) := w.alloc m
       pure { w with dflt := some id }
     | some id => do
@@ -306,12 +308,11 @@ def W.returns (w : W) : List Res â†’ Except Err W
     let w â† w.ret w.sig.numOut r
     rs.foldlM (fun w r => w.andRet w.sig.numOut r) w
 
-/-- `When.Matches` (when.go:171): per pair `w.Return(results...)` â€” on whatever `curMatch`/default is current â€” and
-    then a fresh `DefaultMatcher` carrying the same results is appended. -/
+/-- `When.Matches` (when.go:171): per pair a fresh `DefaultMatcher` carrying the pair's results is appended;
+    `curMatch` and the default are left alone. -/
 def W.matchPairs (w : W) : List (List Spec Ã— Res) â†’ Except Err W
   | [] => .ok w
   | (args, r) :: rest => do
-    let w â† w.ret w.sig.numOut r
     let m â† newDefaultMatch w.sig args [r]
     let (w, id) := w.alloc m
     W.matchPairs { w with ms := w.ms ++ [id] } rest
